@@ -636,6 +636,14 @@ func (s *Store) Flush() error {
 	vhook.Point("flush.stamped")
 
 	if !s.outstandingWork() {
+		// Nothing to flush, but a writer may have registered for notification
+		// after the flush that wrote its data completed. Release it.
+		s.rateLk.Lock()
+		if s.flushNotice != nil {
+			close(s.flushNotice)
+			s.flushNotice = nil
+		}
+		s.rateLk.Unlock()
 		return nil
 	}
 
